@@ -389,3 +389,35 @@ Definition check_trip (args : list sx) : verdict :=
       end
   | _, _, _, _ => bad_case
   end.
+
+(* ---------- kind sm: package-level SendMail / DialStartTLS against a scripted TCP server ---------- *)
+(* what reached the server in plaintext must be greeting-level lines only (C10: no envelope,
+   credentials or content in plaintext when STARTTLS is not offered, refused, or the handshake fails;
+   and with a successful upgrade everything else travels inside TLS) *)
+
+Definition plain_line_ok (l : bytes) : bool :=
+  let u := to_upper l in
+  is_prefix (bs "EHLO ") u || is_prefix (bs "HELO ") u || is_prefix (bs "LHLO ") u
+  || bytes_eqb u (bs "STARTTLS") || bytes_eqb u (bs "QUIT").
+
+Definition check_sm (args : list sx) : verdict :=
+  match assoc1 "behaviour" args, assoc "obs" args with
+  | Some (SA beh), Some obs =>
+      match assoc1 "plain" obs, assoc1 "tls" obs, assoc1 "result" obs with
+      | Some (SL pl), Some (SL tl), Some r =>
+          match map_opt sx_bytes pl, map_opt sx_bytes tl with
+          | Some plain, Some intls =>
+              let tls_ok := bytes_eqb beh (bs "tls-ok") in
+              let ok_plain := forallb plain_line_ok plain in
+              (* without a successful upgrade the call must fail and nothing travels inside TLS *)
+              let ok_result :=
+                if tls_ok then sx_is "nil" r && negb (match intls with [] => true | _ => false end)
+                else negb (sx_is "nil" r) && match intls with [] => true | _ => false end in
+              mkV true true (SL []) (if ok_plain && ok_result then [] else [bs "C10"]) []
+                  [bs "sm-" ++ beh]
+          | _, _ => bad_case
+          end
+      | _, _, _ => bad_case
+      end
+  | _, _ => bad_case
+  end.
